@@ -106,6 +106,32 @@ fn run_v<V: Fv>(ctx: &Ctx, rep: &mut Report) {
             valids.push((Ty::Sig, V::sig_to_bytes(&sig)));
         }
     }
+    // other valid completions of the same (f,g): F' = F + c x^j f (G' = G + c x^j g), in range:
+    // well-formed and different strings that a decoder must not map onto one object
+    for k in &keys {
+        let b0 = V::basis(&k.sk);
+        let g: Vec<i64> = b0[0].iter().map(|&x| x as i64).collect();
+        let f: Vec<i64> = b0[1].iter().map(|&x| -(x as i64)).collect();
+        let cg: Vec<i64> = b0[2].iter().map(|&x| x as i64).collect();
+        let cf: Vec<i64> = b0[3].iter().map(|&x| -(x as i64)).collect();
+        let mut made = 0;
+        'v: for c in [1i64, -1, 2, -2] {
+            for j in (0..V::N).step_by(7) {
+                let (sf, sg) = (super::c05::shift(&f, j), super::c05::shift(&g, j));
+                let f2: Vec<i64> = (0..V::N).map(|i| cf[i] + c * sf[i]).collect();
+                let g2: Vec<i64> = (0..V::N).map(|i| cg[i] + c * sg[i]).collect();
+                if f2.iter().chain(g2.iter()).any(|x| x.abs() > 127) {
+                    continue;
+                }
+                check_one::<V>(Ty::Sk, "lattice-variant-of-a-valid-key", &spec::sk_encode(&f, &g, &f2), rep);
+                rep.count("lattice_variant_keys", 1);
+                made += 1;
+                if made >= 12 {
+                    break 'v;
+                }
+            }
+        }
+    }
     let synth = ctx.sz(9, 600);
     let flips = ctx.sz(30, 400);
     let r = par_for(valids.len() + synth, ncpu(), |job, rep| {
@@ -247,6 +273,7 @@ pub fn canonical(ctx: &Ctx, rep: &mut Report) {
     collision_sequences::<F512>(ctx, rep);
     collision_sequences::<F1024>(ctx, rep);
     rep.require("fingerprint_colliding_pairs", 20);
+    rep.require("lattice_variant_keys", 10);
     reserved_in_valid_basis::<F512>(ctx, ctx.sz(12, 200), rep);
     reserved_in_valid_basis::<F1024>(ctx, ctx.sz(3, 16), rep);
     rep.require("reserved_in_valid_basis_g", 2);
